@@ -388,3 +388,28 @@ def replay_function(contract, model):
         return {"requires_hold": True, "env": _show(env), "result": result if isinstance(result, (str, int, bool, type(None))) else repr(result)[:200], "failed_ensures": failed}
     except Exception as ex:
         return {"replay_error": "%s: %s" % (type(ex).__name__, ex)}
+
+
+def replay_any(contracts_module, o):
+    """
+    Replay of a refuted E1 obligation's counter-model on the real code (CPython), where the contract's shape allows it:
+    block contracts over strings / access paths, whole-function contracts over strings, tuples and records.
+    -> failing-input dict (contract, what was run, observed result, failed ensures) or None
+    """
+    if not o.get("model"):
+        return None
+    C = importlib.import_module(contracts_module)
+    c = next((c_ for c_ in C.CONTRACTS if "/%s/" % c_.qual in o["name"]), None)
+    if c is None or c.trusted:
+        return None
+    if c.block is not None:
+        r = replay(c, o["model"])
+        ok = r and r.get("requires_hold") and (r.get("failed_ensures") or r.get("block_raised"))
+        return {"contract": c.qual, "counterexample replayed on the real statements (CPython)": r} if ok else None
+    r = replay_function(c, o["model"])
+    if r and r.get("requires_hold") and r.get("failed_ensures"):
+        return {"contract": c.qual, "counterexample replayed on the real function (CPython)": r}
+    r = replay_function_records(c, o["model"])
+    if r and r.get("requires_hold") and r.get("failed_ensures"):
+        return {"contract": c.qual, "counterexample replayed on the real function (CPython; uninterpreted values searched)": r}
+    return None
